@@ -116,6 +116,7 @@ type Cluster struct {
 	Calls         []string       // every delivered call, in order
 	EventBatches  int
 	Kills         int
+	DeadCalls     int // delivered calls that failed because an endpoint is dead (since the harness last reset it)
 	Ticks         int
 	Applied       map[string]int // record id/key -> times applied in the current timeline (informational)
 	LastCompleted uint64
@@ -637,6 +638,9 @@ func (cl *Cluster) Deliver(i int) string {
 		cl.Delivered[name[:j]]++
 	}
 	cl.Calls = append(cl.Calls, rc.label)
+	if rc.failed || !cl.nodeAlive(rc.from) || !cl.nodeAlive(rc.to) {
+		cl.DeadCalls++
+	}
 	shim.Close(rc.go_)
 	return rc.label
 }
